@@ -438,6 +438,13 @@ def decoder_corpus(tier, seed):
                 ecpk = S.enc_seq(S.enc_integer(1) + S.enc_octets(b"\x01" * klen) + S.enc_ctx(0, coid) + S.enc_ctx(1, S.enc_bits(pub, 0)))
                 structured.append(ecpk)
                 structured.append(S.enc_seq(S.enc_integer(0) + S.enc_seq(pkoid + coid) + S.enc_octets(ecpk)))
+        # very large INTEGER fields (version numbers of thousands of octets: CPython >= 3.11 refuses to write them in decimal)
+        for big in (1 << (8 * 2000), (1 << (8 * 1800)) - 1):
+            inner = S.enc_seq(S.enc_integer(1) + S.enc_octets(b"\x01" * bl) + S.enc_ctx(0, coid) + S.enc_ctx(1, S.enc_bits(pb, 0)))
+            structured.append(S.enc_seq(S.enc_integer(big) + S.enc_octets(b"\x01" * bl) + S.enc_ctx(0, coid) + S.enc_ctx(1, S.enc_bits(pb, 0))))
+            structured.append(S.enc_seq(S.enc_integer(big) + S.enc_seq(pkoid + coid) + S.enc_octets(inner)))
+            structured.append(S.enc_seq(S.enc_integer(0) + S.enc_seq(pkoid + coid) + S.enc_octets(
+                S.enc_seq(S.enc_integer(big) + S.enc_octets(b"\x01" * bl) + S.enc_ctx(0, coid) + S.enc_ctx(1, S.enc_bits(pb, 0))))))
         structured.append(S.enc_seq(S.enc_seq(pkoid + coid) + S.enc_bits(b"", 0)))
         for name, valids in seeds.items():
             if name == "keys.SigningKey.from_der":
